@@ -1,3 +1,5 @@
+#[cfg(feature = "crypto")]
+pub mod builders;
 pub mod c01;
 pub mod c03;
 pub mod c06;
